@@ -149,10 +149,14 @@ func targetsFromGroup(tg *targetgroup.Group, cfg *config.ScrapeConfig) ([]*SDTar
 		if lbls != nil || origLabels != nil {
 			tar := scrape.NewTarget(lbls, origLabels, cfg.Params)
 			hash := targetHash(lbls, tar.URL().String())
-			if exists[hash] {
-				continue
+			// only active targets can be duplicates of each other, dropped targets have no labels
+			// and no url, all of them would get the same hash
+			if lbls != nil {
+				if exists[hash] {
+					continue
+				}
+				exists[hash] = true
 			}
-			exists[hash] = true
 			targets = append(targets, &SDTargets{
 				Job:        cfg.JobName,
 				PromTarget: tar,
